@@ -10,9 +10,13 @@
     plugin_tables_agree spellings_probed lower_model_exact
     graph_disabled_no_exec flag_only_affects_code_blocks parse_ignores_flag_without_code
     graph_disabled_completes_only_without_code graph_disabled_reachable_code_fails
+    markup_parse_flag_only_at_code markup_parse_off_no_exec markup_parse_off_rejects
+    markup_parse_off_error_kind text_parse_flag_only_at_code text_parse_off_no_exec
+    text_parse_off_rejects
 -/
 import Genshi.Model.Exec
 import Genshi.Lemmas.ExecGraph
+import Genshi.Lemmas.ExecParse
 namespace Genshi.Props.C14
 open Genshi.Exec Genshi.Gen.Exec
 
@@ -784,6 +788,69 @@ theorem graph_disabled_reachable_code_fails (fuel pf : Nat) (cfg : Config) (root
   cases hf'
   rw [hcode] at hn
   cases hn
+
+/-! ### the two guarded parsers, function by function (`Genshi/Model/ExecParse.lean`) -/
+
+section ParseLevel
+open Genshi.Exec.Parse
+
+/-- `MarkupTemplate._parse` reads the flag at a `<?python ?>` instruction and nowhere else: for
+    every parser event sequence without one — whatever `interpolate` and `Suite` do — the
+    result (stream or error) is the same under both flags -/
+theorem markup_parse_flag_only_at_code (env : Env) (src : List XEv)
+    (h : ∀ ev ∈ src, ev.isCode = false) (acc : List TEv) :
+    parseMarkup env true src acc = parseMarkup env false src acc :=
+  parseMarkup_flag env src h acc
+
+/-- with the flag off the compiled stream holds no EXEC event, at any nesting -/
+theorem markup_parse_off_no_exec (env : Env) (hp : InterpPure env) (src : List XEv) (out : List TEv)
+    (h : parseMarkup env false src [] = .ok out) : hasExecList out = false :=
+  parseMarkup_off_no_exec env hp src [] out rfl h
+
+/-- with the flag off a source holding a `<?python ?>` instruction anywhere never parses -/
+theorem markup_parse_off_rejects (env : Env) (src : List XEv) (h : ∃ ev ∈ src, ev.isCode = true)
+    (out : List TEv) : parseMarkup env false src [] ≠ .ok out :=
+  parseMarkup_off_rejects env src h [] out
+
+/-- … and the error is "Python code blocks not allowed" unless `interpolate` failed first: the
+    block is not even compiled -/
+theorem markup_parse_off_error_kind (env : Env) (src : List XEv) (e : PErr)
+    (h : parseMarkup env false src [] = .error e) : e = .notAllowed ∨ ∃ s, env.interp s = .error e :=
+  parseMarkup_off_error_kind env src [] e h
+
+/-- the same three facts for `NewTextTemplate._parse` and `{% python %}`, for every segment list,
+    directive table and nesting (stray `{% end %}` and unclosed directives included) -/
+theorem text_parse_flag_only_at_code (env : Env) (src : List Seg) (h : ∀ sg ∈ src, sg.isCode = false) :
+    parseText env true src [] [] 0 = parseText env false src [] [] 0 :=
+  parseText_flag env src h [] [] 0
+
+theorem text_parse_off_no_exec (env : Env) (hp : InterpPure env) (src : List Seg) (out : List TEv)
+    (h : parseText env false src [] [] 0 = .ok out) : hasExecList out = false :=
+  parseText_off_no_exec env hp src [] [] 0 out rfl h
+
+theorem text_parse_off_rejects (env : Env) (src : List Seg) (h : ∃ sg ∈ src, sg.isCode = true)
+    (out : List TEv) : parseText env false src [] [] 0 ≠ .ok out :=
+  parseText_off_rejects env src h [] [] 0 out
+
+/-- an environment for the examples: `$x`-free text, every block compiles, `if` is a directive -/
+def exEnv : Env := ⟨fun s => .ok [.text s], fun _ => true, fun c => c = ['i', 'f']⟩
+
+-- with the flag on the block inside `{% if %}…{% end %}` ends up as an EXEC event inside the SUB …
+example : (parseText exEnv true [.dir ['i', 'f'] ['x'], .text ['a'], .dir python ['y'], .dir kwEnd []] [] [] 0).toOption.map hasExecList
+    = some true := by decide
+-- … with the flag off the same source is rejected; without the block both flags agree
+example : (match parseText exEnv false [.dir ['i', 'f'] ['x'], .text ['a'], .dir python ['y'], .dir kwEnd []] [] [] 0 with
+    | .error e => e == .notAllowed
+    | .ok _ => false) = true := by decide
+example : (parseMarkup exEnv true [.other 0, .pi python ['y'], .comment [' ', '!', 'x'], .other 1] []).toOption.map List.length
+    = some 3 := by decide
+example : InterpPure exEnv := by
+  intro s evs h
+  simp only [exEnv] at h
+  cases h
+  rfl
+
+end ParseLevel
 
 /-! ### non-vacuity of the hypotheses -/
 
